@@ -65,6 +65,7 @@ class Config:
         force_failure=False,
         decorator=None,
         stage_kinds=None,
+        teardown_pre_kinds=(),
     ):
         # actions: dict site -> list of action tuples, e.g. ("cleanup", "1")
         self.actions = actions or {}
@@ -74,6 +75,8 @@ class Config:
         self.force_failure = force_failure
         self.decorator = decorator
         self.stage_kinds = stage_kinds or {}
+        # behaviours of a tearDown written "clean up first, up-call last": raised BEFORE super().tearDown()
+        self.teardown_pre_kinds = tuple(teardown_pre_kinds)
 
     def menu(self, stage):
         if stage in self.stage_kinds:
@@ -83,6 +86,8 @@ class Config:
             return self.stage_kinds[base]
         if stage == "setUp":
             return tuple(self.kinds) + tuple(("pre", k) for k in self.setup_pre_kinds)
+        if stage == "tearDown" and self.teardown_pre_kinds:
+            return tuple(self.kinds) + tuple(("pre", k) for k in self.teardown_pre_kinds)
         return self.kinds
 
     def key(self):
@@ -94,6 +99,7 @@ class Config:
             self.force_failure,
             self.decorator,
             tuple(sorted(self.stage_kinds.items())),
+            self.teardown_pre_kinds,
         )
 
     def describe(self):
@@ -283,6 +289,8 @@ def make_class(config):
             ctx.xlog.append(("run", "tearDown"))
             run_actions(self, ctx, "tearDown")
             k = ctx.decide("tearDown")
+            if isinstance(k, tuple):
+                perform(self, ctx, "tearDown", k[1])
             super().tearDown()
             perform(self, ctx, "tearDown", k)
 
@@ -408,6 +416,8 @@ class ModelRun:
             return False
         if not pre_site:
             k = self.decide(stage)
+            if isinstance(k, tuple):
+                k = k[1]  # raised before the up-call: same consequences as after it
         if k != RET:
             self.raised.append((stage, k))
             return False
